@@ -86,14 +86,28 @@ def reader_guards(ctx, mi):
       continue
     ok = len(raises) == 1
     g = None
+    unk = None
+
+    def presence(t):
+      """'In' / 'NotIn' when t says that the degree is present in / absent from the dictionary, in any of the usual spellings."""
+      if isinstance(t, ast.Compare) and len(t.ops) == 1 and isinstance(t.ops[0], (ast.In, ast.NotIn)) and norm_text(t.left) == ps[1] and norm_text(t.comparators[0]) == ps[0]:
+        return type(t.ops[0]).__name__
+      if isinstance(t, ast.Compare) and len(t.ops) == 1 and isinstance(t.ops[0], (ast.Is, ast.IsNot)) and isinstance(t.comparators[0], ast.Constant) and t.comparators[0].value is None:
+        c = t.left
+        if isinstance(c, ast.Call) and isinstance(c.func, ast.Attribute) and c.func.attr in ('get', 'pop') and norm_text(c.func.value) == ps[0] and c.args and norm_text(c.args[0]) == ps[1] and \
+            (len(c.args) == 1 or (isinstance(c.args[1], ast.Constant) and c.args[1].value is None)) and (c.func.attr == 'get' or len(c.args) == 2):
+          return 'NotIn' if isinstance(t.ops[0], ast.Is) else 'In'      # stored alterations are integers: None means absent
+      return None
     if ok:
       g = U.parent(fi.node, raises[0])
       t = g.test if isinstance(g, ast.If) and raises[0] in g.body else None
-      ok = isinstance(t, ast.Compare) and len(t.ops) == 1 and type(t.ops[0]).__name__ == op and norm_text(t.left) == ps[1] and norm_text(t.comparators[0]) == ps[0] and \
-          U.parent(fi.node, g) is fi.node
+      got = presence(t) if t is not None else None
+      ok = got == op and U.parent(fi.node, g) is fi.node
+      if not ok and t is not None and got is None and not isinstance(t, ast.BoolOp):
+        unk = 'cannot classify: %s rejects when %s' % (name, norm_text(t))
     ctx.ob('VOCAB/reader-guard', fi, g or fi.node, ok, '%s rejects exactly %s' % (name, what) if ok else
-           '%s does not reject exactly %s (%s): names written by pitches_to_chord_symbol can be refused by the parser' % (name, what, norm_text(g.test) if isinstance(g, ast.If) else 'no single guarded raise'),
-           construct='%s rejects %s' % (name, what), definite=len(raises) == 1 and isinstance(g, ast.If))
+           (unk or '%s does not reject exactly %s (%s): names written by pitches_to_chord_symbol can be refused by the parser' % (name, what, norm_text(g.test) if isinstance(g, ast.If) else 'no single guarded raise')),
+           construct='%s rejects %s' % (name, what), definite=len(raises) == 1 and isinstance(g, ast.If) and unk is None, unknown=unk)
 
 
 # ------------------------------------------------------------------ IDX(a)
